@@ -125,9 +125,17 @@ func (v *defaultValidator) dumpDefaultValue(out *codegen.Emitter) any {
 	if v.defaultValueType != nil && ok {
 		dvm, ok := v.defaultValue.(map[string]any)
 		if ok {
+			// A struct literal names the field, a literal of a named map type takes the key itself.
+			_, isStruct := nt.Decl.Type.(*codegen.StructType)
+
 			namedFields := ""
 			for _, k := range sortedKeys(dvm) {
-				namedFields += fmt.Sprintf("\n%s: %s,", upperFirst(k), litter.Sdump(dvm[k]))
+				key := upperFirst(k)
+				if !isStruct {
+					key = fmt.Sprintf("%q", k)
+				}
+
+				namedFields += fmt.Sprintf("\n%s: %s,", key, litter.Sdump(dvm[k]))
 			}
 
 			namedFields += "\n"
